@@ -105,7 +105,7 @@ def frame_cases(ctx, res, cases):
                 exp.append(o)
                 meta.append((chunks, i, kind, boot))
                 delivered += [x for x in o if x.startswith("frame ")]
-                if "exceeded" in o:
+                if "exceeded" in o or any(x.startswith("raise ") for x in o):
                     break  # a live transport stops reading; (what the loop does afterwards: see `after_exceeded`)
             res.evaluations += 1
             res.count("frames kind=" + kind)
@@ -269,7 +269,20 @@ def merge(ctx, res, summaries, pid, mon):
             res.disagreements.append({"component": "monitor rejects the MODEL's own trace", "scenario": {"header": d["header"], "events": d["events"]}, "impl": None, "model": d["result"]})
         for d in s["mon"]:
             if d["mon"] == mon:
-                res.monitor_failures.append(monitor_failure(d, pid))
+                add_monitor_failure(res, d, pid)
+
+
+def add_monitor_failure(res, d, pid):
+    """Shrink and describe the first few; only count the rest (a broken implementation fails thousands of scenarios)."""
+    n = sum(1 for f in res.monitor_failures if f.get("shrunk"))
+    if n < 4:
+        f = monitor_failure(d, pid)
+        f["shrunk"] = True
+        res.monitor_failures.append(f)
+    else:
+        res.count("monitor failures not shrunk")
+        if n < 8:
+            res.monitor_failures.append({"what": "%s monitor rejects the implementation's trace" % pid, "scenario": {"header": list(d["header"]), "events": d["events"], "impl_observations": d["obs"], "verdict": d["verdict"]}, "tags": ["%s-unshrunk" % d["mon"]], "shrunk": True})
 
 
 def nontrivial(mon, fs):
@@ -356,14 +369,14 @@ def shrink_disagreements(res):
 
 def bc_run(ctx, res, pid, mon, profiles):
     run_corpus(ctx, res, pid, mon)
-    workers = ctx.scale(1, min(16, os.cpu_count() or 1))
-    nshards = ctx.scale(4, 64)
-    per = ctx.scale(1500, 12000)
+    workers = ctx.scale(min(4, os.cpu_count() or 1), min(16, os.cpu_count() or 1))
+    nshards = ctx.scale(8, 64)
+    per = ctx.scale(4000, 40000)
     base = ctx.rng.randrange(1 << 30)
     shards = [(base + i, per, profiles, None, None, (mon,)) for i in range(nshards)]
     merge(ctx, res, C.run_shards(ctx, shards, workers), pid, mon)
-    ex = C.exhaustive(ctx.scale(5, 9), C.ALPHABET, workers, ctx.scale(20, 420))
-    ex2 = C.exhaustive(ctx.scale(6, 10), C.SMALL_ALPHABET, workers, ctx.scale(10, 200))
+    ex = C.exhaustive(ctx.scale(7, 9), C.ALPHABET, workers, ctx.scale(30, 420))
+    ex2 = C.exhaustive(ctx.scale(8, 12), C.SMALL_ALPHABET, workers, ctx.scale(15, 200))
     for e in (ex, ex2):
         res.evaluations += e["transitions"]
         res.traces_validated += e["transitions"]
@@ -375,12 +388,26 @@ def bc_run(ctx, res, pid, mon, profiles):
             res.disagreements.append({"component": "monitor rejects the MODEL's own trace", "scenario": {"header": list(d["header"]), "events": d["events"]}, "impl": None, "model": d["result"]})
         for d in e["mon"]:
             if d["mon"] == mon:
-                res.monitor_failures.append(monitor_failure(d, pid))
+                add_monitor_failure(res, d, pid)
     res.extra["bounded_exhaustive"] = [{"alphabet": len(a), "depth": e["depth_done"], "transitions": e["transitions"], "states": e["states"]} for a, e in ((C.ALPHABET, ex), (C.SMALL_ALPHABET, ex2))]
+    print_histogram(res, pid)
     # keep the report small: the first few of each
     del res.monitor_failures[8:]
     del res.disagreements[8:]
     shrink_disagreements(res)
+
+
+def print_histogram(res, pid):
+    """Generator quality, measured: operations, scenario features, model/implementation branches hit."""
+    h = res.hist
+    ops = sorted((k[3:], v) for k, v in h.items() if k.startswith("op "))
+    feats = sorted((k[3:], v) for k, v in h.items() if k.startswith("sc "))
+    brs = sorted((k[3:], v) for k, v in h.items() if k.startswith("br "))
+    exs = [k for k in h if k.startswith("ex ")]
+    print("%s operations: %s" % (pid, " ".join("%s=%d" % kv for kv in ops)))
+    print("%s scenarios exercising: %s" % (pid, " ".join("%s=%d" % kv for kv in feats)))
+    print("%s distinct (event, observation-kinds) branches: %d random + %d exhaustive; rarest: %s" % (
+        pid, len(brs), len(exs), " ".join("%s=%d" % kv for kv in sorted(brs, key=lambda kv: kv[1])[:6])))
 
 
 def run(ctx, res):
